@@ -29,7 +29,13 @@ func C05(t *rapid.T, big bool) *world.Scenario {
 		rp.Body.Len = rapid.IntRange(0, 5000).Draw(t, "exactlen")
 	}
 	life := int64(100)
-	rp.Header = [][2]string{H("Cache-Control", "max-age="+itoa(life)), H("Etag", `"v$S"`)}
+	ccv := "max-age=" + itoa(life)
+	if Pct(t, "qualified", 15) {
+		// fields named by a qualified no-cache may be withheld on an unvalidated reuse, but a
+		// validated one carries them again (and they stay stored)
+		ccv += `, no-cache="X-Multi, x-new"`
+	}
+	rp.Header = [][2]string{H("Cache-Control", ccv), H("Etag", `"v$S"`)}
 	switch Weighted(t, "date", 70, 20, 10) {
 	case 0:
 		rp.Header = append(rp.Header, H("Date", "$T+0"))
@@ -94,7 +100,25 @@ func C05(t *rapid.T, big bool) *world.Scenario {
 			sc.Steps = append(sc.Steps, SleepStep(life+1))
 		}
 		rq := &world.Req{Method: "GET", URL: u, Uncond: rp}
-		c := &world.Reply{Kind: "resp", Status: 304, Header: [][2]string{H("Date", "$T+0"), H("Cache-Control", "max-age="+itoa(life))}}
+		switch Weighted(t, lbl+"-client", 70, 15, 15) {
+		case 1:
+			// the caller keeps the body unread while it issues further requests
+			rq.HoldBody = true
+		case 2:
+			// a forced refetch overwrites the entry (possibly while an earlier body is still unread)
+			rq.Header = append(rq.Header, H("Cache-Control", "no-cache"))
+			nb := rp
+			nb.Header = append([][2]string(nil), rp.Header...)
+			nb.Body.Len = Pick(t, lbl+"-newlen", 0, 1, rp.Body.Len/2, rp.Body.Len, rp.Body.Len+7)
+			nb.Body.Seed = rp.Body.Seed + 1
+			rq.Cond = &nb
+			rq.Uncond = nb
+		}
+		c := &world.Reply{Kind: "resp", Status: 304, Header: [][2]string{H("Date", "$T+0"), H("Cache-Control", ccv)}}
+		if rq.Cond != nil {
+			sc.Steps = append(sc.Steps, ReqStep(rq))
+			continue
+		}
 		if Pct(t, lbl+"-upd", 50) {
 			c.Header = append(c.Header, H("X-Multi", "z"), H("X-New", "n$S"), H("Content-Length", "999"), H("Keep-Alive", "hop$S;"))
 		}
